@@ -335,6 +335,7 @@ func init() {
 		nan := FPIsNaN(ft)
 		return symInt(types.Int, Ite(nan, BVC(64, 2), Ite(lt, BVC(64, ^uint64(0)), Ite(eq, BVC(64, 0), BVC(64, 1)))))
 	})
+	reg("vNativeStress", func(in *Interp, fr *frame, a []Value) Value { return nil })
 	reg("vSameJSON", func(in *Interp, fr *frame, a []Value) Value { return in.strEq(strArg(a[0]), strArg(a[1])) })
 	reg("vIsNaN", func(in *Interp, fr *frame, a []Value) Value { return symBool(FPIsNaN(a[0].(Float).Term())) })
 	reg("vIsInf", func(in *Interp, fr *frame, a []Value) Value { return symBool(FPIsInf(a[0].(Float).Term())) })
